@@ -34,7 +34,8 @@ func sortNaturalFilter(array []any, key any) any {
 			}
 			ev := values.MapEntry(rv, key)
 			if ev.IsValid() && ev.CanInterface() {
-				if s, ok := values.ToLiquid(ev.Interface()).(string); ok {
+				// (a property that is a pointer or a drop sorts as the value a lookup of it yields)
+				if s, ok := values.ValueOf(ev.Interface()).Interface().(string); ok {
 					return strings.ToLower(s)
 				}
 			}
